@@ -38,28 +38,34 @@ pub fn any_entry() -> UpdateEntry {
     UpdateEntry::new(ekey, ArchiveLocation { archive_id: id, archive_offset: off }, size, any_status())
 }
 
+pub fn same_key(a: &[u8; 9], b: &[u8; 9]) -> bool {
+    a[0] == b[0] && a[1] == b[1] && a[2] == b[2] && a[3] == b[3] && a[4] == b[4] && a[5] == b[5] && a[6] == b[6] && a[7] == b[7] && a[8] == b[8]
+}
+
 pub fn same_entry(a: &UpdateEntry, b: &UpdateEntry) -> bool {
-    let mut k = true;
-    let mut i = 0;
-    while i < 9 {
-        k &= a.ekey[i] == b.ekey[i];
-        i += 1;
-    }
-    k && a.hash_guard == b.hash_guard
+    same_key(&a.ekey, &b.ekey)
+        && a.hash_guard == b.hash_guard
         && a.archive_location.archive_id == b.archive_location.archive_id
         && a.archive_location.archive_offset == b.archive_location.archive_offset
         && a.encoded_size == b.encoded_size
         && status_byte(a.status) == status_byte(b.status)
 }
 
-pub fn same_key(a: &[u8; 9], b: &[u8; 9]) -> bool {
-    let mut k = true;
-    let mut i = 0;
-    while i < 9 {
-        k &= a[i] == b[i];
-        i += 1;
-    }
-    k
+/// Scalar copy of an entry (oracle bookkeeping without symbolic indexing into arrays of structs).
+#[derive(Clone, Copy)]
+pub struct Flat {
+    pub key: [u8; 9],
+    pub guard: u32,
+    pub id: u16,
+    pub off: u32,
+    pub size: u32,
+    pub st: u8,
+}
+pub fn flat(e: &UpdateEntry) -> Flat {
+    Flat { key: e.ekey, guard: e.hash_guard, id: e.archive_location.archive_id, off: e.archive_location.archive_offset, size: e.encoded_size, st: status_byte(e.status) }
+}
+pub fn same_flat(a: &Flat, b: &Flat) -> bool {
+    same_key(&a.key, &b.key) && a.guard == b.guard && a.id == b.id && a.off == b.off && a.size == b.size && a.st == b.st
 }
 
 // ---- UpdateEntry: byte layout and round trip ---------------------------------------------------
@@ -142,8 +148,6 @@ macro_rules! page_roundtrip {
         fn $name() {
             const N: usize = $n; // pushes attempted
             let es: [UpdateEntry; 3] = [any_entry(), any_entry(), any_entry()];
-            let i: usize = kani::any();
-            kani::assume(i < 8);
             let mut page = UpdatePage::new();
             assert!(page.is_empty() && !page.is_full() && page.len() == 0, "fresh page is empty");
             let mut k = 0;
@@ -161,21 +165,24 @@ macro_rules! page_roundtrip {
                 None => assert!(stored == 0, "a non-empty page must parse back"),
                 Some(p) => {
                     assert!(p.len() == stored, "page round trip changed the entry count");
-                    if i < stored {
-                        assert!(same_entry(&p.entries()[i], &es[i]), "page round trip changed an entry");
-                        assert!(same_entry(&page.entries()[i], &es[i]), "push stored a different entry");
+                    // concrete positions (a symbolic index into the parsed Vec gives spurious CBMC traces)
+                    let mut k = 0;
+                    while k < stored {
+                        assert!(same_entry(&p.entries()[k], &es[k]), "page round trip changed an entry");
+                        assert!(same_entry(&page.entries()[k], &es[k]), "push stored a different entry");
+                        k += 1;
                     }
                 }
             }
             // a buffer one byte short of a page is not a page
             assert!(UpdatePage::from_bytes(&bytes[..UPDATE_PAGE_SIZE - 1]).is_none(), "short buffer accepted as a page");
-            kani::cover!(i + 1 == stored, "last stored entry observed");
+            kani::cover!(back.is_some() == (stored > 0), "page image parsed");
             std::mem::forget((back, page, es));
         }
     };
 }
 // @family prop=C05 tier=quick timeout=300 role=update-page-capacity-roundtrip
-// @bounds N = 0..=3 pushes (name suffix) into one page of the scaled model (2 entries + 8 slack bytes); entries fully symbolic (id <= 1023, offset < 2^30); observed slot symbolic
+// @bounds N = 0..=3 pushes (name suffix) into one page of the scaled model (2 entries + 8 slack bytes); entries fully symbolic (id <= 1023, offset < 2^30); every stored slot compared
 // @encodes cascette_client_storage::index::update::UpdatePage::push, cascette_client_storage::index::update::UpdatePage::is_full, cascette_client_storage::index::update::UpdatePage::to_bytes, cascette_client_storage::index::update::UpdatePage::from_bytes
 // @assumes hook H3 scale model: UPDATE_PAGE_SIZE = 56 (real 512), i.e. 2 instead of 21 entries per page, same 8 slack bytes
 // @catches page accepting ENTRIES_PER_PAGE+1 entries or refusing the last slot (>= vs >), slot stride/offset errors in to_bytes/from_bytes, last slot not parsed (loop bound), empty-slot detection
@@ -188,6 +195,24 @@ page_roundtrip!(c05_update_page_n3, 3);
 // ---- UpdateSection: append / search / all_entries / to_bytes / from_bytes -----------------------
 const CAP: usize = (MIN_UPDATE_SECTION_SIZE / UPDATE_PAGE_SIZE) * ENTRIES_PER_PAGE;
 
+/// Section built by `n` appends of es[0..n] (each must succeed while there is room) plus the observed
+/// append of es[n]; returns (section, stored count, result of the observed append).
+fn build_section(es: &[UpdateEntry; 5], n: usize) -> (UpdateSection, usize, bool) {
+    let mut s = UpdateSection::new();
+    assert!(s.capacity_pages() * UPDATE_PAGE_SIZE == MIN_UPDATE_SECTION_SIZE, "new() has the minimum capacity");
+    let mut k = 0;
+    while k < n {
+        let r = s.append(es[k].clone());
+        assert!(r == (k < CAP), "append must succeed exactly while the section has room");
+        k += 1;
+    }
+    let before = if n < CAP { n } else { CAP };
+    assert!(s.is_full() == (before == CAP), "is_full iff capacity_pages * ENTRIES_PER_PAGE entries");
+    let r = s.append(es[n].clone());
+    assert!(r == (before < CAP), "append result must say whether the entry was stored");
+    (s, before + r as usize, r)
+}
+
 macro_rules! section_step {
     ($name:ident, $n:expr) => {
         #[kani::proof]
@@ -196,66 +221,48 @@ macro_rules! section_step {
             const N: usize = $n; // appends before the observed one
             let es: [UpdateEntry; 5] = [any_entry(), any_entry(), any_entry(), any_entry(), any_entry()];
             let probe: [u8; 9] = kani::any();
-            let i: usize = kani::any();
-            let mut s = UpdateSection::new();
-            assert!(s.capacity_pages() * UPDATE_PAGE_SIZE == MIN_UPDATE_SECTION_SIZE, "new() has the minimum capacity");
-            let mut k = 0;
-            while k < N {
-                let r = s.append(es[k].clone());
-                assert!(r == (k < CAP), "append must succeed exactly while the section has room");
-                k += 1;
-            }
-            let before = if N < CAP { N } else { CAP };
-            assert!(s.is_full() == (before == CAP), "is_full iff capacity_pages * ENTRIES_PER_PAGE entries");
-            let r = s.append(es[N].clone());
-            assert!(r == (before < CAP), "append result must say whether the entry was stored");
-            let count = before + r as usize;
+            let (s, count, _r) = build_section(&es, N);
             assert!(s.entry_count() == count, "entry_count after append");
             assert!(s.page_count() == (count + ENTRIES_PER_PAGE - 1) / ENTRIES_PER_PAGE, "pages are filled in order");
             // search: newest stored entry with that key (independent scan over the inputs)
-            let mut want: Option<usize> = None;
+            let mut want: Option<Flat> = None;
+            let mut newest = 0;
             let mut k = 0;
             while k < count {
                 if same_key(&es[k].ekey, &probe) {
-                    want = Some(k);
+                    want = Some(flat(&es[k]));
+                    newest = k;
                 }
                 k += 1;
             }
-            match (s.search(&probe), want) {
+            let got = s.search(&probe).map(flat);
+            match (&got, &want) {
                 (None, None) => {}
-                (Some(g), Some(w)) => assert!(same_entry(g, &es[w]), "search must return the newest entry for the key"),
-                _ => assert!(false, "search must find a key iff an entry with that key was stored"),
-            }
-            if r {
-                assert!(s.search(&es[N].ekey).is_some_and(|g| same_entry(g, &es[N])), "append returned true but search does not find the new entry first");
+                (Some(g), Some(w)) => assert!(same_flat(g, w), "search must return the newest entry stored for the key"),
+                _ => assert!(false, "search must find a key iff an entry with that key was stored (append result vs search)"),
             }
             // all_entries: oldest first
             assert!(s.all_entries().count() == count, "all_entries length");
-            if i < count {
-                let g = s.all_entries().nth(i);
-                assert!(g.is_some_and(|g| same_entry(g, &es[i])), "all_entries must yield the appended entries oldest first");
+            {
+                let mut it = s.all_entries();
+                let mut k = 0;
+                while k < count {
+                    assert!(it.next().is_some_and(|g| same_entry(g, &es[k])), "all_entries must yield the appended entries oldest first");
+                    k += 1;
+                }
             }
-            // serialisation round trip
-            let bytes = s.to_bytes();
-            assert!(bytes.len() == MIN_UPDATE_SECTION_SIZE, "section image is capacity_pages * UPDATE_PAGE_SIZE bytes");
-            let t = UpdateSection::from_bytes(&bytes);
-            assert!(t.entry_count() == count && t.capacity_pages() == s.capacity_pages(), "section round trip changed count or capacity");
-            if i < count {
-                let g = t.all_entries().nth(i);
-                assert!(g.is_some_and(|g| same_entry(g, &es[i])), "section round trip changed an entry");
-            }
-            kani::cover!(want.is_some_and(|w| w + 1 < count) && s.search(&probe).is_some(), "an older entry is the newest for the probe key");
-            kani::cover!(count >= 2 && same_key(&es[0].ekey, &es[count - 1].ekey) && same_key(&probe, &es[0].ekey), "same key stored twice and probed");
-            kani::cover!(i + 1 == count, "last entry observed");
-            std::mem::forget((t, bytes, s, es));
+            kani::cover!(want.is_some(), "probe key stored");
+            kani::cover!(count < 2 || (want.is_some() && newest + 1 < count), "an older entry is the newest one for the probe key");
+            kani::cover!(count < 2 || (same_key(&es[0].ekey, &es[count - 1].ekey) && same_key(&probe, &es[0].ekey)), "same key stored twice and probed");
+            std::mem::forget((s, es));
         }
     };
 }
-// @family prop=C05 tier=quick timeout=600 role=update-section-step
-// @bounds section built by N = 0..=5 appends in total (name suffix = appends before the observed one; scaled capacity 4, so n4 is the append into a full section); all entries fully symbolic incl. equal keys and tombstones; probe key 9 symbolic bytes; observed position symbolic
-// @encodes cascette_client_storage::index::update::UpdateSection::new, cascette_client_storage::index::update::UpdateSection::append, cascette_client_storage::index::update::UpdateSection::is_full, cascette_client_storage::index::update::UpdateSection::search, cascette_client_storage::index::update::UpdateSection::all_entries, cascette_client_storage::index::update::UpdateSection::entry_count, cascette_client_storage::index::update::UpdateSection::to_bytes, cascette_client_storage::index::update::UpdateSection::from_bytes, cascette_client_storage::index::update::UpdatePage::from_bytes
-// @assumes hook H3 scale model: 2 pages x 2 entries instead of 60 x 21 (code is uniform in the constants); entries created by UpdateEntry::new (guard bit 31 set)
-// @catches append reporting success without storing (or the reverse), capacity off by one page/entry, search oldest-first or across pages in the wrong order, all_entries order, last page dropped by from_bytes (`<` instead of `<=` at the end of the buffer), page stride errors, capacity not preserved
+// @family prop=C05 tier=quick timeout=600 role=update-section-append-search
+// @bounds section built by N+1 = 1..=5 appends (name suffix N = appends before the observed one; scaled capacity 4, so n4 is the append into a full section); all entries fully symbolic incl. equal keys and tombstones; probe key 9 symbolic bytes; every position compared
+// @encodes cascette_client_storage::index::update::UpdateSection::new, cascette_client_storage::index::update::UpdateSection::append, cascette_client_storage::index::update::UpdateSection::is_full, cascette_client_storage::index::update::UpdateSection::search, cascette_client_storage::index::update::UpdateSection::all_entries, cascette_client_storage::index::update::UpdateSection::entry_count, cascette_client_storage::index::update::UpdateSection::page_count
+// @assumes hook H3 scale model: 2 pages x 2 entries instead of 60 x 21 (the code is uniform in the constants)
+// @catches append reporting success without storing (or the reverse), capacity off by one page/entry, is_full wrong at the boundary, search oldest-first or pages visited in the wrong order, all_entries order
 section_step!(c05_update_section_step_n0, 0);
 section_step!(c05_update_section_step_n1, 1);
 section_step!(c05_update_section_step_n2, 2);
@@ -263,3 +270,40 @@ section_step!(c05_update_section_step_n3, 3);
 section_step!(c05_update_section_step_n4, 4);
 // @end
 
+macro_rules! section_roundtrip {
+    ($name:ident, $n:expr) => {
+        #[kani::proof]
+        #[kani::unwind(5)]
+        fn $name() {
+            const N: usize = $n;
+            let es: [UpdateEntry; 5] = [any_entry(), any_entry(), any_entry(), any_entry(), any_entry()];
+            let (s, count, _r) = build_section(&es, N);
+            let bytes = s.to_bytes();
+            assert!(bytes.len() == MIN_UPDATE_SECTION_SIZE, "section image is capacity_pages * UPDATE_PAGE_SIZE bytes");
+            let t = UpdateSection::from_bytes(&bytes);
+            assert!(t.capacity_pages() == s.capacity_pages(), "section round trip changed the capacity");
+            assert!(t.entry_count() == count, "section round trip changed the entry count");
+            {
+                let mut it = t.all_entries();
+                let mut k = 0;
+                while k < count {
+                    assert!(it.next().is_some_and(|g| same_entry(g, &es[k])), "section round trip changed an entry or the order");
+                    k += 1;
+                }
+            }
+            kani::cover!(t.entry_count() == count && t.page_count() == s.page_count(), "round trip complete");
+            std::mem::forget((t, bytes, s, es));
+        }
+    };
+}
+// @family prop=C05 tier=quick timeout=600 role=update-section-bytes-roundtrip
+// @bounds section holding 1..=4 entries (name suffix N = appends before the last one; n4 = fifth append refused, 4 stored = every page full, image ends exactly at the buffer end); entries fully symbolic, built by UpdateEntry::new; every position compared
+// @encodes cascette_client_storage::index::update::UpdateSection::to_bytes, cascette_client_storage::index::update::UpdateSection::from_bytes, cascette_client_storage::index::update::UpdatePage::to_bytes, cascette_client_storage::index::update::UpdatePage::from_bytes, cascette_client_storage::index::update::UpdateEntry::to_bytes, cascette_client_storage::index::update::UpdateEntry::from_bytes
+// @assumes hook H3 scale model (2 pages x 2 entries, 8 slack bytes per page as in the real 512-byte page); real hashlittle guard (bit 31 set => slot never looks empty)
+// @catches last page dropped by from_bytes (`<` instead of `<=` at the end of the buffer), last slot of a page dropped, page stride / slot stride errors, parse continuing past the first empty page, capacity not preserved
+section_roundtrip!(c05_update_section_bytes_n0, 0);
+section_roundtrip!(c05_update_section_bytes_n1, 1);
+section_roundtrip!(c05_update_section_bytes_n2, 2);
+section_roundtrip!(c05_update_section_bytes_n3, 3);
+section_roundtrip!(c05_update_section_bytes_n4, 4);
+// @end
